@@ -14,7 +14,6 @@ where
 {
     view: V,
     gamma: T,
-    // TODO: use `VecDeque` and remove unused values again.
     l0s: Vec<T>,
     l1s: Vec<T>,
     l2s: Vec<T>,
@@ -89,6 +88,17 @@ where
             / T::from(6.0).expect("can convert");
         debug_assert!(out.is_finite(), "value must be finite");
         self.filts.push(out);
+
+        // Only the two most recent stage values and the latest output are ever read again.
+        if self.l0s.len() > 2 {
+            self.l0s.remove(0);
+            self.l1s.remove(0);
+            self.l2s.remove(0);
+            self.l3s.remove(0);
+        }
+        if self.filts.len() > 1 {
+            self.filts.remove(0);
+        }
     }
 
     fn last(&self) -> Option<T> {
